@@ -1,4 +1,5 @@
 """C14: SystemClockLoop sync state machine, BFS on the real class."""
+import os
 import runner
 from runner import Report, build_driver, run_shards
 
@@ -7,8 +8,27 @@ def run(tier, seed):
     exe = build_driver('c14_syncloop.cpp', 'fast')
     res = run_shards(exe, [], nshards=32, tier=tier, seed=seed, timeout=3000)
     rep.absorb(res)
+    # ---- companion: TLA+ model checked by TLC, every edge of its state graph replayed against the implementation
+    import tlaconf
+    nodes, edges, init, summ = tlaconf.run_tlc()
     c = rep.coverage
+    if nodes is None:
+        rep.violation('c14:tla-model-invariant:' + summ['model_invariant_violated'], summ)
+    else:
+        tp = os.path.join(runner.BUILD, 'c14-traces-%d.txt' % os.getpid())
+        try:
+            n_edges, depth = tlaconf.trace_file(nodes, edges, init, tp)
+            exe2 = build_driver('c14_conform.cpp', 'fast')
+            res2 = run_shards(exe2, ['--traces=' + tp], nshards=8, tier=tier, seed=seed, timeout=1800)
+            rep.absorb(res2)
+        finally:
+            if os.path.exists(tp):
+                os.remove(tp)
+        c['tla_model_states'] = summ['distinct']; c['tla_model_transitions'] = len(edges); c['tla_model_depth'] = depth
+        if c.get('model_edges_replayed', 0) != len(edges):
+            rep.violation('c14:conformance-incomplete', {'edges': len(edges), 'replayed': c.get('model_edges_replayed', 0)})
     rep.assumptions += [
+        'companion model: tla/SyncLoop.tla (configuration 8 s / 1 s / 1000 ms, steps {500, 1000, 8000} ms x answers {valid, invalid, not ready}) is explored exhaustively by TLC with the invariants TypeOK, Spacing, PeriodBound, Liveness; every edge of the dumped state graph is replayed on the real SystemClockLoop from a fresh object (BFS-tree path to the source state + the edge) and status, retry period, request age, sync age, "request sent" and "response applied" must equal the model\'s successor state',
         'real SystemClockLoop subclass overriding clockMillis(); scripted reference clock (counts sendRequest/readResponse) and backup clock; private FSM fields read through the friend name SystemClockLoopTest_loop',
         'event = advance by one of {1 ms, timeout/2, timeout, 1 s, initial period, sync period, 2 x sync period} then loop() with the reference answering {ready+valid, ready+valid(+3 s), not ready, ready+invalid}',
         'time keeping is judged only while consecutive loop() calls are <= 64,536 ms apart (C13 bound); a valid answer equal to the current reading is a no-op for the phase (see C13 known finding)',
@@ -16,7 +36,7 @@ def run(tier, seed):
         'canonical state: every time quantity relative to now and capped just above the largest threshold it is compared with, which makes the state space finite without merging states that differ in any future verdict; with the 1 ms step it is still too large, so that exploration is depth-bounded (400k-state cap per configuration); a second exploration without the 1 ms step runs to fixpoint where it fits under the state cap',
     ]
     return rep.finish(exhaustive=False, extra={
-        'states': c.get('states', 0) + c.get('coarse_states', 0), 'transitions': c.get('transitions', 0) + c.get('coarse_transitions', 0), 'traces_validated_against_impl': c.get('executions', 0),
+        'states': c.get('states', 0) + c.get('coarse_states', 0), 'transitions': c.get('transitions', 0) + c.get('coarse_transitions', 0), 'traces_validated_against_impl': c.get('executions', 0) + c.get('model_edges_replayed', 0),
         'rule': '8 (syncPeriod, initialPeriod, timeout) configurations x 4 wirings; BFS over event sequences with canonical-state deduplication (implementation FSM fields relative to now + reference-model obligations) to depth %s; then the same configurations over the alphabet without the 1 ms step, explored until the (finite, capped) state space is exhausted or a state cap is hit: %d of %d configurations reached the fixpoint (all schedules of any length over that alphabet)' % (c.get('max_depth'), c.get('coarse_configs_to_fixpoint', 0), c.get('configs', 0)),
     })
 
